@@ -7,6 +7,7 @@ TC03pyr  seg/pyramid.py `create_segmentation_pyramid`, single-source branch: the
 from __future__ import annotations
 
 import ast
+import re
 
 from py2lean import Unsupported, find_func, span_sha, strip_doc, translate_block
 from targets import assigns_to, find_if, ret_tuple
@@ -453,3 +454,292 @@ def build_single(tree):
 
 
 TARGETS['TC03single'] = {'file': 'image.py', 'build': build_single}
+
+
+# ============================================================================================== bridges (tie T for hand-written parts)
+class _Rename(ast.NodeTransformer):
+    """Replace sub-expressions by names according to their unparsed text."""
+
+    def __init__(self, mapping):
+        self.mapping = mapping
+
+    def generic_visit(self, node):
+        try:
+            key = ast.unparse(node)
+        except Exception:  # noqa: BLE001
+            key = None
+        if key in self.mapping and isinstance(node, ast.expr):
+            return ast.copy_location(ast.Name(id=self.mapping[key], ctx=ast.Load()), node)
+        return super().generic_visit(node)
+
+
+def _renamed(stmts, mapping):
+    out = []
+    for s in stmts:
+        t = _Rename(mapping).visit(ast.parse(ast.unparse(s)).body[0])
+        ast.fix_missing_locations(t)
+        out.append(t)
+    return out
+
+
+def _ret(expr_src):
+    r = ast.parse('return ' + expr_src).body[0]
+    ast.fix_missing_locations(r)
+    return r
+
+
+def build_getitem(tree):
+    """volume.py `_VolumeBase._prepare_getitem_index`: the bounds test `_check_slice` applies to a slice and, per axis, the
+    emptiness test, the size and the index that becomes the new origin."""
+    fn = find_func(tree, '_VolumeBase._prepare_getitem_index')
+    inner = [n for n in fn.body if isinstance(n, ast.FunctionDef) and n.name == '_check_slice']
+    if len(inner) != 1:
+        raise Unsupported('_check_slice not found')
+    chk = [s for s in strip_doc(inner[0].body)]
+    if not all(isinstance(s, ast.If) for s in chk) or len(chk) != 2:
+        raise Unsupported('_check_slice is no longer two guarded raises')
+    m = {'val.start': 'start', 'val.stop': 'stop', 'self.spatial_shape[dim]': 'n'}
+    blk = _renamed(chk, m) + [_ret('0')]
+    t1 = translate_block(blk, 'getitemCheckSlice', [('start', 'optint'), ('stop', 'optint'), ('n', 'int')], {},
+                         doc='`_prepare_getitem_index._check_slice`: which slice bounds are refused on an axis of length `n` (0 = accepted)')
+    loops = [n for n in fn.body if isinstance(n, ast.For) and ast.unparse(n.iter) == 'range(0, 3)']
+    if len(loops) != 1:
+        raise Unsupported('per-axis loop `for d in range(0, 3)` not found')
+    lp = loops[0]
+    ifs = [s for s in lp.body if isinstance(s, ast.If) and 'len(tuple_index) > d' in ast.unparse(s.test)]
+    if len(ifs) != 1:
+        raise Unsupported('per-axis loop: `if len(tuple_index) > d` not found')
+    body = ifs[0].body
+    unpack = [s for s in body if isinstance(s, ast.Assign) and ast.unparse(s.targets[0]) == '(first, last, step)']
+    if len(unpack) != 1 or ast.unparse(unpack[0].value) != 'index_item.indices(self.spatial_shape[d])':
+        raise Unsupported('first, last, step = index_item.indices(self.spatial_shape[d]) not found')
+    keep = [s for s in body if (isinstance(s, ast.Assign) and ast.unparse(s.targets[0]) in ('index_range', 'size'))
+            or (isinstance(s, ast.If) and 'index_range' in ast.unparse(s.test))]
+    if len(keep) != 3:
+        raise Unsupported('per-axis arithmetic (index_range, emptiness test, size) changed shape')
+    app = [s for s in ast.walk(lp) if isinstance(s, ast.Call) and ast.unparse(s.func) in ('origin_indices.append', 'new_shape.append')]
+    org = [c for c in app if ast.unparse(c.func) == 'origin_indices.append']
+    shp = [c for c in app if ast.unparse(c.func) == 'new_shape.append' and c in [x for b in body for x in ast.walk(b)]]
+    if len(org) != 1 or len(shp) != 1:
+        raise Unsupported('origin_indices.append / new_shape.append changed')
+    vec = [s for s in ast.walk(lp) if isinstance(s, ast.Call) and ast.unparse(s.func) == 'new_vectors.append']
+    if len(vec) != 1 or ast.unparse(vec[0].args[0]) != 'self._affine[:3, d] * step':
+        raise Unsupported('new_vectors.append(self._affine[:3, d] * step) changed')
+    ret = ast.Return(value=ast.Tuple(elts=[org[0].args[0], shp[0].args[0]], ctx=ast.Load()))
+    ast.fix_missing_locations(ret)
+    blk2 = [ast.parse(ast.unparse(s)).body[0] for s in keep] + [ret]
+    for s in blk2:
+        ast.fix_missing_locations(s)
+    t2 = translate_block(blk2, 'getitemAxisStep', [('first', 'int'), ('last', 'int'), ('step', 'int')], {},
+                         doc='`_prepare_getitem_index`, one axis, from `(first, last, step) = slice.indices(n)`: refusal of empty '
+                             'results, then (index that becomes the new origin, size of the axis)')
+    return t1 + '\n\n' + t2, span_sha(chk + keep) + hashlib.sha256((ast.unparse(org[0]) + ast.unparse(shp[0])).encode()).hexdigest()[:8]
+
+
+def build_volpos(tree):
+    """spatial.py `get_volume_positions`: constants, the normalisation of the hint, the spacing of a single position, the
+    multiples of the `allow_missing_positions` branch, the mean gap of the strict branch, the perpendicularity test."""
+    consts = {}
+    for st in tree.body:
+        if isinstance(st, ast.Assign) and len(st.targets) == 1 and isinstance(st.targets[0], ast.Name):
+            consts[st.targets[0].id] = st.value
+    from fractions import Fraction
+    texts = []
+    for py, ln in (('_DEFAULT_SPACING_RELATIVE_TOLERANCE', 'vpTolSpacing'), ('_DEFAULT_EQUALITY_TOLERANCE', 'vpTolEq'),
+                   ('_DOT_PRODUCT_PERPENDICULAR_TOLERANCE', 'vpTolPerp')):
+        v = consts.get(py)
+        if not (isinstance(v, ast.Constant) and isinstance(v.value, float)):
+            raise Unsupported(f'{py} is no longer a float literal')
+        fr_ = Fraction(repr(v.value))
+        texts.append(f'/-- `spatial.{py}` = {v.value!r} -/\ndef {ln} : Rat := ({fr_.numerator} : Rat) / {fr_.denominator}')
+    fn = find_func(tree, 'get_volume_positions')
+    body = strip_doc(fn.body)
+    # (1) hint normalisation
+    hint_if = [s for s in body if isinstance(s, ast.If) and ast.unparse(s.test) == 'spacing_hint is not None']
+    if len(hint_if) != 1:
+        raise Unsupported('`if spacing_hint is not None:` not found')
+    blk = [ast.parse(ast.unparse(hint_if[0])).body[0], _ret('spacing_hint')]
+    # result: the normalised hint, or the sentinel 0 for "no hint" (0 itself is refused)
+    blk = [ast.parse('if spacing_hint is None:\n    return 0.0').body[0]] + blk
+    for s in blk:
+        ast.fix_missing_locations(s)
+    texts.append(translate_block(blk, 'vpNormHint', [('spacing_hint', 'optrat')], {},
+                                 doc='`get_volume_positions`: the hint after normalisation (0 encodes "no hint"; a hint of 0 is refused)'))
+    # (2) spacing of a single position
+    single = [s for s in ast.walk(fn) if isinstance(s, ast.Assign) and ast.unparse(s.targets[0]) == 'spacing'
+              and isinstance(s.value, ast.IfExp)]
+    if len(single) != 2 or len({ast.unparse(s.value) for s in single}) != 1:
+        raise Unsupported('spacing = 1.0 if spacing_hint is None else spacing_hint (twice) not found')
+    ifexp = single[0].value
+    blk = [ast.If(test=ifexp.test, body=[ast.Return(value=ifexp.body)], orelse=[ast.Return(value=ifexp.orelse)])]
+    ast.fix_missing_locations(blk[0])
+    texts.append(translate_block(blk, 'vpSingleSpacing', [('spacing_hint', 'optrat')], {},
+                                 doc='`get_volume_positions`: spacing returned for one (distinct) position'))
+    # (3) allow_missing branch
+    am = [s for s in body if isinstance(s, ast.If) and ast.unparse(s.test) == 'allow_missing_positions']
+    if len(am) != 1:
+        raise Unsupported('`if allow_missing_positions:` not found')
+    mult = [s for s in am[0].body if isinstance(s, ast.Assign) and ast.unparse(s.targets[0]) == 'origin_distance_multiples']
+    if len(mult) != 1:
+        raise Unsupported('origin_distance_multiples assignment not found')
+    e = _Rename({'origin_distances.min()': 'dmin', 'origin_distances.max()': 'dmax', 'origin_distances': 'd'}).visit(
+        ast.parse(ast.unparse(mult[0].value), mode='eval').body)
+    texts.append(translate_block([ast.fix_missing_locations(ast.Return(value=e))], 'vpMultiple',
+                                 [('d', 'rat'), ('dmin', 'rat'), ('dmax', 'rat'), ('spacing', 'rat')], {},
+                                 doc='`get_volume_positions`, allow_missing_positions: the multiple of the spacing at which a '
+                                     'position at distance `d` lies (element of `origin_distance_multiples`)'))
+    idx = [s for s in am[0].body if isinstance(s, ast.Assign) and ast.unparse(s.targets[0]) == 'inverse_sort_index']
+    reg = [s for s in am[0].body if isinstance(s, ast.Assign) and ast.unparse(s.targets[0]) == 'is_regular']
+    if len(idx) != 1 or ast.unparse(idx[0].value) != 'origin_distance_multiples.round().astype(np.int64)':
+        raise Unsupported('inverse_sort_index = origin_distance_multiples.round().astype(np.int64) changed')
+    if len(reg) != 1 or not isinstance(reg[0].value, ast.Call) or ast.unparse(reg[0].value.func) != 'np.allclose' \
+            or [ast.unparse(a) for a in reg[0].value.args] != ['origin_distance_multiples', 'origin_distance_multiples.round()'] \
+            or sorted(k.arg for k in reg[0].value.keywords) != ['atol', 'rtol']:
+        raise Unsupported('is_regular of the allow_missing branch changed')
+    kw = {k.arg: k.value for k in reg[0].value.keywords}
+    # the defaults `rtol`, `atol` take when the caller passes neither (the only way the image classes call it)
+    dflt = [s for s in body if isinstance(s, ast.If) and ast.unparse(s.test) == 'atol is not None and rtol is not None']
+    if len(dflt) != 1:
+        raise Unsupported('rtol/atol default chain not found')
+    node = dflt[0]
+    while len(node.orelse) == 1 and isinstance(node.orelse[0], ast.If):
+        node = node.orelse[0]
+    dd = {ast.unparse(s.targets[0]): ast.unparse(s.value) for s in node.orelse if isinstance(s, ast.Assign)}
+    if dd != {'rtol': '_DEFAULT_SPACING_RELATIVE_TOLERANCE', 'atol': '0.0'}:
+        raise Unsupported(f'default rtol/atol changed: {dd}')
+    blk = [ast.parse('rtol = _DEFAULT_SPACING_RELATIVE_TOLERANCE').body[0], ast.parse('atol = 0.0').body[0],
+           ast.Return(value=ast.Tuple(elts=[kw['rtol'], kw['atol']], ctx=ast.Load()))]
+    for b_ in blk:
+        ast.fix_missing_locations(b_)
+    texts.append(translate_block(blk, 'vpMissingTol', [('spacing', 'rat')], {},
+                                 consts={'_DEFAULT_SPACING_RELATIVE_TOLERANCE': ('rat', 'vpTolSpacing')},
+                                 doc='`get_volume_positions`, allow_missing_positions, default tolerances: (rtol, atol) of the '
+                                     '`np.allclose(multiples, multiples.round(), …)` regularity test'))
+    zero = [s for s in ast.walk(am[0]) if isinstance(s, ast.If) and 'np.isclose(spacing, 0.0' in ast.unparse(s.test)]
+    if len(zero) != 1 or 'atol=_DEFAULT_EQUALITY_TOLERANCE' not in ast.unparse(zero[0].test):
+        raise Unsupported('zero-gap test of the allow_missing branch changed')
+    # (4) strict branch: mean gap
+    sp = [s for s in am[0].orelse if isinstance(s, ast.Assign) and ast.unparse(s.targets[0]) == 'spacing']
+    if len(sp) != 1:
+        raise Unsupported('strict branch: spacing assignment not found')
+    e = _Rename({'origin_distances_sorted[-1]': 'dmax', 'origin_distances_sorted[0]': 'dmin',
+                 'len(origin_distances_sorted)': 'count'}).visit(ast.parse(ast.unparse(sp[0].value), mode='eval').body)
+    texts.append(translate_block([ast.fix_missing_locations(ast.Return(value=e))], 'vpMeanGap',
+                                 [('dmin', 'rat'), ('dmax', 'rat'), ('count', 'int')], {},
+                                 doc='`get_volume_positions`, strict branch: the spacing from the extreme distances and the number of '
+                                     'distinct positions'))
+    # (5) perpendicularity
+    perp = [s for s in body if isinstance(s, ast.Assign) and ast.unparse(s.targets[0]) == 'is_perpendicular']
+    if len(perp) != 1:
+        raise Unsupported('is_perpendicular assignment not found')
+    texts.append(translate_block([ast.fix_missing_locations(ast.Return(value=perp[0].value))], 'vpIsPerp', [('dot_product', 'rat')],
+                                 {}, consts={'_DOT_PRODUCT_PERPENDICULAR_TOLERANCE': ('rat', 'vpTolPerp')},
+                                 doc='`get_volume_positions`: the perpendicularity test on the normalised dot product'))
+    return '\n\n'.join(texts), span_sha([hint_if[0], single[0], mult[0], idx[0], reg[0], sp[0], perp[0]])
+
+
+TARGETS['TC03getitem'] = {'file': 'volume.py', 'build': build_getitem}
+TARGETS['TC03volpos'] = {'file': 'spatial.py', 'build': build_volpos}
+
+
+_DIR_CODE = {'PixelIndexDirections.R': 0, 'PixelIndexDirections.L': 1, 'PixelIndexDirections.D': 2, 'PixelIndexDirections.U': 3}
+
+
+def build_rot(tree):
+    """spatial.py `create_rotation_matrix`: which direction cosines (with which sign) and which pixel spacing each index
+    direction selects, the order of the cross product per handedness, where the normal goes, which spacings are refused;
+    and the index convention of volumes."""
+    texts = []
+    conv = [st for st in tree.body if isinstance(st, ast.Assign) and ast.unparse(st.targets[0]) == 'VOLUME_INDEX_CONVENTION']
+    if len(conv) != 1 or not isinstance(conv[0].value, ast.Tuple) or len(conv[0].value.elts) != 2:
+        raise Unsupported('VOLUME_INDEX_CONVENTION is no longer a pair')
+    codes = []
+    for e in conv[0].value.elts:
+        k = ast.unparse(e)
+        if k not in _DIR_CODE:
+            raise Unsupported(f'VOLUME_INDEX_CONVENTION element {k}')
+        codes.append(_DIR_CODE[k])
+    texts.append('/-- `spatial.VOLUME_INDEX_CONVENTION` (R = 0, L = 1, D = 2, U = 3) -/\n'
+                 f'def rotVolumeConvention : Int × Int := (({codes[0]} : Int), ({codes[1]} : Int))')
+    fn = find_func(tree, 'create_rotation_matrix')
+    body = strip_doc(fn.body)
+    # pixel_spacing[0] = between rows, [1] = between columns
+    ps = {ast.unparse(s.targets[0]): ast.unparse(s.value) for s in ast.walk(fn) if isinstance(s, ast.Assign)
+          and ast.unparse(s.targets[0]) in ('spacing_between_rows', 'spacing_between_columns') and 'pixel_spacing[' in ast.unparse(s.value)}
+    if ps != {'spacing_between_rows': 'float(pixel_spacing[0])', 'spacing_between_columns': 'float(pixel_spacing[1])'}:
+        raise Unsupported(f'unpacking of pixel_spacing changed: {ps}')
+    cs = {ast.unparse(s.targets[0]): ast.unparse(s.value) for s in body if isinstance(s, ast.Assign)
+          and ast.unparse(s.targets[0]) in ('row_cosines', 'column_cosines')}
+    if cs != {'row_cosines': 'np.array(image_orientation[:3], dtype=float)',
+              'column_cosines': 'np.array(image_orientation[3:], dtype=float)'}:
+        raise Unsupported(f'row/column cosines changed: {cs}')
+    refuse = [s for s in body if isinstance(s, ast.If) and 'spacing_between_rows <=' in ast.unparse(s.test)]
+    if len(refuse) != 1:
+        raise Unsupported('refusal of non-positive pixel spacings not found')
+    texts.append(translate_block([refuse[0], _ret('0')], 'rotSpacingCheck',
+                                 [('spacing_between_rows', 'rat'), ('spacing_between_columns', 'rat')], {},
+                                 doc='`create_rotation_matrix`: which pixel spacings are refused (0 = accepted)'))
+    loops = [s for s in body if isinstance(s, ast.For) and ast.unparse(s.iter) == 'index_convention_' and ast.unparse(s.target) == 'd']
+    if len(loops) != 1 or len(loops[0].body) != 1 or not isinstance(loops[0].body[0], ast.If):
+        raise Unsupported('loop over index_convention_ changed')
+    node = loops[0].body[0]
+    branches = []
+    while True:
+        t = node.test
+        if not (isinstance(t, ast.Compare) and ast.unparse(t.left) == 'd' and len(t.ops) == 1 and isinstance(t.ops[0], ast.Eq)
+                and ast.unparse(t.comparators[0]) in _DIR_CODE):
+            raise Unsupported(f'direction test {ast.unparse(t)}')
+        if len(node.body) != 2:
+            raise Unsupported('direction branch is no longer two appends')
+        a, b = (s.value for s in node.body if isinstance(s, ast.Expr))
+        if ast.unparse(a.func) != 'rotation_columns.append' or ast.unparse(b.func) != 'spacings.append':
+            raise Unsupported('direction branch appends changed')
+        cos = {'row_cosines': (0, 1), '-row_cosines': (0, -1), 'column_cosines': (1, 1), '-column_cosines': (1, -1)}.get(ast.unparse(a.args[0]))
+        sp = {'spacing_between_columns': 0, 'spacing_between_rows': 1}.get(ast.unparse(b.args[0]))
+        if cos is None or sp is None:
+            raise Unsupported(f'direction branch values: {ast.unparse(a)}, {ast.unparse(b)}')
+        branches.append((_DIR_CODE[ast.unparse(t.comparators[0])], cos, sp))
+        if not node.orelse:
+            break
+        if len(node.orelse) != 1 or not isinstance(node.orelse[0], ast.If):
+            raise Unsupported('direction chain has a plain else')
+        node = node.orelse[0]
+    src = ''
+    for i, (code, (csel, sign), sp) in enumerate(branches):
+        src += f"{'if' if i == 0 else 'elif'} d == {code}:\n    return ({csel}, {sign}, {sp})\n"
+    src += "raise KeyError('no branch')\n"
+    blk = ast.parse(src).body
+    texts.append(translate_block(blk, 'rotSelect', [('d', 'int')], {},
+                                 doc='`create_rotation_matrix`, the branch of index direction `d` (R = 0, L = 1, D = 2, U = 3): '
+                                     '(0 = row cosines / 1 = column cosines, sign, 0 = spacing between columns / 1 = spacing between rows)'))
+    hand = [s for s in body if isinstance(s, ast.If) and ast.unparse(s.test) == 'handedness_ == AxisHandedness.RIGHT_HANDED']
+    if len(hand) != 1 or len(hand[0].body) != 1 or len(hand[0].orelse) != 1:
+        raise Unsupported('handedness branch changed')
+    order = []
+    for s in (hand[0].body[0], hand[0].orelse[0]):
+        m = re.fullmatch(r'n = np\.cross\(rotation_columns\[(\d)\], rotation_columns\[(\d)\]\)', ast.unparse(s))
+        if not m:
+            raise Unsupported(f'normal: {ast.unparse(s)}')
+        order.append((int(m.group(1)), int(m.group(2))))
+    blk = ast.parse(f"if right_handed:\n    return ({order[0][0]}, {order[0][1]})\nelse:\n    return ({order[1][0]}, {order[1][1]})\n").body
+    texts.append(translate_block(blk, 'rotCrossOrder', [('right_handed', 'bool')], {},
+                                 doc='`create_rotation_matrix`: the normal is `cross(rotation_columns[i], rotation_columns[j])`'))
+    sf = [s for s in body if isinstance(s, ast.If) and ast.unparse(s.test) == 'slices_first']
+    if len(sf) != 1:
+        raise Unsupported('slices_first branch not found')
+    if [ast.unparse(s) for s in sf[0].body] != ['rotation_columns.insert(0, n)', 'spacings.insert(0, spacing_between_slices)'] or \
+            [ast.unparse(s) for s in sf[0].orelse] != ['rotation_columns.append(n)', 'spacings.append(spacing_between_slices)']:
+        raise Unsupported('slices_first branch changed')
+    blk = ast.parse("if slices_first:\n    return 0\nelse:\n    return 2\n").body
+    texts.append(translate_block(blk, 'rotNormalColumn', [('slices_first', 'bool')], {},
+                                 doc='`create_rotation_matrix`: the column that holds spacing_between_slices × normal'))
+    scale = [s for s in body if isinstance(s, ast.Assign) and ast.unparse(s.targets[0]) == 'rotation_columns'
+             and isinstance(s.value, ast.ListComp)]
+    if len(scale) != 1 or ast.unparse(scale[0].value) != '[c * s for c, s in zip(rotation_columns, spacings)]':
+        raise Unsupported('scaling of the rotation columns changed')
+    if ast.unparse(body[-1]) != 'return np.column_stack(rotation_columns)':
+        raise Unsupported('return of create_rotation_matrix changed')
+    return '\n\n'.join(texts), span_sha([conv[0], refuse[0], loops[0], hand[0], sf[0], scale[0]])
+
+
+TARGETS['TC03rot'] = {'file': 'spatial.py', 'build': build_rot}
